@@ -147,8 +147,9 @@ class ReqHarness:
     VARS = ("pool", "plan", "tried", "errs", "att", "sentLog", "policyLog", "retries", "cl", "specLeft", "timer",
             "final", "result", "paging", "cb", "eb", "dlv", "queue", "epoch", "lastConn", "nhaErrors")
 
-    def __init__(self, nhosts, pool, idem, spec, target, max_epoch=2):
+    def __init__(self, nhosts, pool, idem, spec, target, max_epoch=2, ids="default"):
         self.n = nhosts
+        self.ids = str(ids)
         self.max_epoch = max_epoch
         self.idem, self.spec, self.target = bool(idem), int(spec), int(target)
         self.world = SimWorld()
@@ -169,6 +170,15 @@ class ReqHarness:
         if len(self.hosts) != nhosts or any(h not in self.session._pools for h in self.hosts.values()):
             raise RuntimeError("simulated cluster did not come up with %d pools" % nhosts)
         self.conns = {i: self.session._pools[h]._connection for i, h in self.hosts.items()}
+        # stream-id space of the (idle) pool connections: as the handshake left it / starting again at 0 / one recycled id
+        if self.ids != "default":
+            from collections import deque
+            k = 1 if self.ids == "one" else 300
+            for c in self.conns.values():
+                if c.in_flight != 0 or c._requests:
+                    raise RuntimeError("pool connection is not idle")
+                c.request_ids = deque(range(k))
+                c.highest_request_id = k - 1
         self.sent = []                # Pending objects in global send order (attempt a = index + 1)
         for node in self.nodes:
             self._tap(node)
@@ -620,7 +630,7 @@ def config_of(state):
     pool = state["pool"]
     pool = tuple(pool) if isinstance(pool, tuple) else tuple(pool[k] for k in sorted(pool))
     return {"pool": [str(x) for x in pool], "idem": bool(state["idem"]), "spec": int(state["specLeft"]),
-            "target": int(state["target"])}
+            "target": int(state["target"]), "ids": str(state.get("ids", "default"))}
 
 
 def _repair_page_timer(h):
@@ -643,7 +653,7 @@ def replay(nhosts, states, max_epoch=2, drain=True, log=None, resync=True):
     cfg = config_of(states[0])
     target = (cfg["target"], cfg["idem"])
     out = []
-    h = ReqHarness(nhosts, cfg["pool"], cfg["idem"], cfg["spec"], cfg["target"], max_epoch=max_epoch)
+    h = ReqHarness(nhosts, cfg["pool"], cfg["idem"], cfg["spec"], cfg["target"], max_epoch=max_epoch, ids=cfg["ids"])
     try:
         d = diff(spec_view(states[0]), h.project(), started=False)
         if d:
@@ -734,8 +744,9 @@ def record(rng, nhosts=3, max_events=14, max_retries=3, max_epoch=2, p_bad=0.25,
     idem = rng.random() < 0.75
     spec = rng.choice((0, 1, 2))
     target = rng.choice(range(1, nhosts + 1)) if rng.random() < 0.15 else 0
-    h = ReqHarness(nhosts, pool, idem, spec, target, max_epoch=max_epoch)
-    events = [{"e": "Config", "pool": pool, "idem": idem, "spec": spec, "target": target}]
+    ids = rng.choice(("default", "zero", "one"))
+    h = ReqHarness(nhosts, pool, idem, spec, target, max_epoch=max_epoch, ids=ids)
+    events = [{"e": "Config", "pool": pool, "idem": idem, "spec": spec, "target": target, "ids": ids}]
     try:
         ev = {"e": "Start"}
         try:
